@@ -8,11 +8,11 @@ from gen import dbgen
 from props.c12 import workdir
 
 THEOREMS = ["IgVerif.C16.c16_each_once", "IgVerif.C16.c16_unbroken_respected", "IgVerif.C16.c16_topological_when_unbroken",
-            "IgVerif.C16.c16_terminates", "IgVerif.C16.c16_all_emitted",
+            "IgVerif.C16.c16_terminates", "IgVerif.C16.c16_all_emitted", "IgVerif.C16.c16_broken_on_cycle", "IgVerif.C16.c16_acyclic_unbroken", "IgVerif.MO.run_broken_ok", "IgVerif.MO.findCycle_cycle",
             "IgVerif.MO.inv_run", "IgVerif.MO.findCycle_get", "IgVerif.MO.findCycle_spec", "IgVerif.MO.findCycle_progress",
             "IgVerif.MO.breakFold_lt", "IgVerif.MO.pass_inv", "IgVerif.MO.run_finishes"]
-PARTIAL = [("c16_broken_on_cycle (only edges of genuine cycles are broken)",
-            "checked by the oracle on every explored graph (a broken edge must lie on a cycle of the intended graph); Lean proof of findCycle soundness pending")]
+PARTIAL = [("c16_collect (the dependency graph handed to the loop is the one the loaded databases imply)",
+            "the model starts from the `std::map` of dependencies; how it is collected from types, derivations and typedefs is tied by correspondence only (databases realising a given graph are given to the real interrogate_module)")]
 
 LIBS = ["liba", "libb", "libc", "libd", "libe", "libf"]
 
